@@ -556,10 +556,46 @@ CUSTOM_CAL = '\r\n'.join([
     'TZOFFSETFROM:+0117', 'TZOFFSETTO:+0117', 'TZNAME:XST', 'END:STANDARD', 'END:VTIMEZONE', 'END:VCALENDAR', ''])
 
 
+def corr_list_bodies(ctx):
+    """vDDDLists.from_ical / to_ical against the bodies regenerated from the source by tools/py2lean.py (ops body_ddl_from /
+    body_ddl_to; Gen/BodiesDec.lean, Gen/Bodies.lean): comma lists of grammar-generated date / date-time / period /
+    duration / time texts, with empty, malformed and repeated parts"""
+    from icalendar.prop import vDDDLists
+    from harness.props import C03
+    rng = ctx.rng
+    gens = [C03.gen_date_text, C03.gen_dt_text, C03.gen_dt_text, C03.gen_period_text, C03.gen_dur_text, C03.gen_time_text]
+    junk = ['', ' ', 'x', '2020', '20200101T', 'P', '20200101/20200102', '20200101T000000Z/P', ',']
+    for i in range(ctx.vol(4000)):
+        g = rng.choice(gens) if rng.random() < 0.7 else None
+        parts = [(g or rng.choice(gens))(rng) for _ in range(rng.choice([1, 1, 2, 2, 3, 4]))]
+        r = rng.random()
+        if r < 0.12:
+            parts.insert(rng.randint(0, len(parts)), rng.choice(junk))
+        elif r < 0.16:
+            parts = []
+        t = ','.join(parts)
+        if 'P' in t and C03.LONG_DIGITS.search(t):
+            continue
+        try:
+            impl = C03.call(lambda: vDDDLists.from_ical(t), lambda xs: ';'.join(C03.ddd_s(x) for x in xs))
+        except C03.Skip:
+            continue
+        ctx.corr('body_ddl_from', [enc(t)], impl, len(parts) > 1)
+        if impl.startswith('ok:'):
+            try:
+                lst = vDDDLists(vDDDLists.from_ical(t))
+                texts = [x if isinstance(x, str) else x.decode() for x in (e.to_ical() for e in lst.dts)]
+                whole = lst.to_ical().decode()
+            except (ValueError, TypeError, OverflowError):
+                continue
+            ctx.corr('body_ddl_to', [enc(x) for x in texts], enc(whole), len(texts) > 1)
+
+
 def correspondence(ctx):
     from icalendar import Calendar
     from icalendar.timezone import tzp
     rng = ctx.rng
+    corr_list_bodies(ctx)
     # id cleaning
     for s in ['', '/', '//', 'a', '/a', 'a/', '/a/b/', '//a//', 'a//b', '/Europe/Berlin', 'Europe/Berlin/', ' /a/ ',
               '/ /', 'Etc/GMT+1']:
